@@ -69,14 +69,32 @@ check_formula(const Plan& p, const Problem& pr, const RunCfg& rcg, const RunResu
       if (rcg.quadratic_prior)
         {
           std::copy(lam.begin(), lam.end(), cur->begin_all());
+          // the prior's share from its definition (not from the library's QuadraticPrior, which is part of what is checked)
+          std::vector<double> pg, pc;
+          shared_ptr<target_type> kap = rcg.kappa ? kappa_image(pr) : shared_ptr<target_type>();
+          ExplicitQuadratic::both(pg, pc, dynamic_cast<const VoxelsOnCartesianGrid<float>&>(*cur), kap.get(), rcg.beta);
+          for (int v = 0; v < pr.nvox; ++v)
+            {
+              g[(size_t)v] -= pg[(size_t)v] / N;
+              Dk[(size_t)v] += 2. * pc[(size_t)v];
+            }
+          // and the library's own answers next to it, to name the culprit when the update differs
           prior.compute_gradient(*tmp, *cur);
           int v = 0;
+          double gmax = 1e-12;
+          for (double q : pg)
+            gmax = std::max(gmax, std::fabs(q));
           for (auto t = tmp->begin_all(); t != tmp->end_all(); ++t, ++v)
-            g[(size_t)v] -= (double)*t / N;
+            if (std::fabs((double)*t - pg[(size_t)v]) > 1e-4 * gmax + 1e-4 * std::fabs(pg[(size_t)v]))
+              sim::fail("formula:quadratic_prior_gradient", "sub-iteration %d: QuadraticPrior::compute_gradient gives %.9g for voxel %d, the definition %.9g", k,
+                        (double)*t, v, pg[(size_t)v]);
           prior.parabolic_surrogate_curvature(*tmp, *cur);
           v = 0;
           for (auto t = tmp->begin_all(); t != tmp->end_all(); ++t, ++v)
-            Dk[(size_t)v] += 2. * (double)*t;
+            if (std::fabs((double)*t - pc[(size_t)v]) > 1e-4 * std::fabs(pc[(size_t)v]) + 1e-9)
+              sim::fail("formula:quadratic_prior_curvature", "sub-iteration %d: QuadraticPrior::parabolic_surrogate_curvature gives %.9g for voxel %d, the definition %.9g",
+                        k, (double)*t, v, pc[(size_t)v]);
+          sim::probe("quadratic_prior_checked_against_definition");
         }
       // strictly positive denominator: values <= 0 are raised to (smallest positive) * 1e-5
       double minpos = 0;
